@@ -31,6 +31,8 @@ def run_walks(ctx, kinds_wanted, ops_wanted, n_quick, n_thorough, regress_names=
             report.count("steps", k, c)
         violations += [x for x in v if x["kind"] in kinds_wanted or x["kind"] == "hang"]
         k3 += [x for x in v if x["kind"] == "K3"]
+        if sum(1 for x in violations if x["kind"] == "hang") >= 3:
+            break  # three passes/decisions that never returned are enough: every further walk would cost its whole watchdog
     sel = [(q, e, r) for q, e, r in reqs if r["op"] in ops_wanted]
     answers = nv.Model().ask([q for q, _, _ in sel])
     for (q, exp, replay), ans in zip(sel, answers):
